@@ -94,6 +94,25 @@ theorem restore_restores (env : Env) (hwf : env.WF) (hrr : env.plan .restoreRead
     ∀ q, (restore env (snapshot d0) d).1.get q = d0.get q :=
   restore_correct env hwf hrr hnf d0 d hunc
 
+/-! ## Two overlapping pushes (lock discipline: `TryLock` first, snapshot inside the critical section) -/
+
+/-- A push that finds `handlingLock` taken is answered 226 and touches nothing. -/
+theorem busy_push_touches_nothing (env : Env) (st : State) (req : Req) :
+    (handleLocked env st true req).status = 226 ∧ (handleLocked env st true req).state = st :=
+  ⟨rfl, rfl⟩
+
+/-- For every interleaving of two pushes (`Sched`: one after the other in either order, or one
+    arriving while the other is inside its critical section — e.g. parked in its `Backup()`): the
+    final tree and serving configuration are those of running, one after the other in the order
+    they went through the critical section, exactly the pushes that were answered 200; a refused
+    push (validation / save / reload failure, or a 226 collision) leaves no trace — in particular
+    it restores the LATEST accepted tree, never an older one. -/
+theorem two_pushes_serializable (env : Env) (hwf : env.WF) (hff : env.RestoreFaultFree)
+    (st : State) (hst : st.WF env) (a b : Req) (ha : a.WF) (hb : b.WF) (sched : Sched) :
+    SerialFrom env st (acceptedInOrder a b (runTwo env st a b sched) sched)
+      (runTwo env st a b sched).final :=
+  two_pushes_aux env hwf hff st hst a b ha hb sched
+
 /-! ## Rejections before the first write (no hypothesis on environment or state) -/
 
 /-- A request that stops in the method / decode / no-data / backup / parse phase changes neither the
@@ -212,6 +231,20 @@ example :
     (handle (demoEnv none) wState req).disk.get .gateway = none ∧
     (handle (demoEnv none) wState req).disk.get (.flow "c.yaml") = some "v1" ∧
     (handle (demoEnv none) wState req).disk.get .defaultMetrics = some "m0" := by
+  decide
+
+/-- `two_pushes_serializable`, non-trivially: A (valid, adds c.yaml) is accepted, then B (a flow failing
+    validation) is refused — the final tree is A's, not the one from before A; and with A arriving while
+    B is inside, A is answered 226 and B alone decides. -/
+example :
+    let a : Req := ⟨.configuration, true, .payload [⟨.flow "c.yaml", some "v1"⟩], false⟩
+    let b : Req := ⟨.applyFlows, true, .payload [⟨.flow "b.yaml", some "bad"⟩], false⟩
+    let t := runTwo (demoEnv none) wState a b .aThenB
+    t.ra.status = 200 ∧ t.rb.status = 422 ∧ t.final.disk.get (.flow "c.yaml") = some "v1" ∧
+    sameDisk t.final.disk t.ra.disk = true ∧
+    (acceptedInOrder a b t .aThenB).length = 1 ∧
+    (runTwo (demoEnv none) wState a b .aDuringB).ra.status = 226 ∧
+    sameDisk (runTwo (demoEnv none) wState a b .aDuringB).final.disk wState.disk = true := by
   decide
 
 /-- Early rejections: bad base64 in the second item; backup read failing; GET (former F08e). -/
